@@ -286,7 +286,9 @@ main(void)
             release(&nm);
         }
     }
+#if NDA > 0
     COVER(nd > 0);
+#endif
     storage_properties_destroy(&A);
     WITNESS_END();
 #endif
